@@ -54,7 +54,7 @@ func main() {
 		Mode: packages.NeedName | packages.NeedFiles | packages.NeedCompiledGoFiles |
 			packages.NeedSyntax | packages.NeedTypes | packages.NeedTypesInfo | packages.NeedImports,
 		Dir: mustAbs("."),
-		Env: append(os.Environ(), "GOFLAGS=-mod=mod", "GOPROXY=off", "GOSUMDB=off", "GOTOOLCHAIN=local"),
+		Env: goEnv(),
 	}
 	pkgs, err := packages.Load(cfg, flag.Args()...)
 	if err != nil {
@@ -98,6 +98,14 @@ func main() {
 		fatal(err)
 	}
 	fmt.Printf("vinstr: %d files of %d packages rewritten\n", n, len(pkgs))
+}
+
+func goEnv() []string {
+	e := append(os.Environ(), "GOPROXY=off", "GOSUMDB=off", "GOTOOLCHAIN=local")
+	if !strings.Contains(os.Getenv("GOFLAGS"), "-modfile") {
+		e = append(e, "GOFLAGS=-mod=mod")
+	}
+	return e
 }
 
 func mustAbs(p string) string {
